@@ -14,7 +14,7 @@ META = {
              'source with the pair kept and with it dropped must parse to the same structure); find_in_loc / find_contains_loc(True/False/"top") / find_loc compared with a '
              'brute-force scan over all nodes for rectangles from all token boundaries (+ random off-token ones). A cell is (check, node class, layout class). Searches are started from the root and from sampled non-root nodes (brute force restricted to the start node\'s subtree); rectangles include those sharing the start and end COLUMN of a multi-line node on a different line; find_loc without an exact match must return the find_in_loc answer if there is one, else the find_contains_loc answer (documented preference).'),
     'budget': {'quick': 45, 'thorough': 900},
-    'floors': {'quick': {'search_start_nodes_below_root': 2500, 'nodes_located': 60000, 'pars_judged': 10000, 'search_rects': 30000, 'operators_checked': 3000},
+    'floors': {'quick': {'search_start_nodes_below_root': 2500, 'nodes_located': 60000, 'pars_judged': 10000, 'search_rects': 30000, 'operators_checked': 1500},
                'thorough': {'search_start_nodes_below_root': 15000, 'nodes_located': 1500000, 'pars_judged': 250000, 'search_rects': 800000, 'operators_checked': 40000}},
     'assumptions': ['tokenize and ast positions of CPython are the reference', 'ownership of parentheses is decided by CPython\'s parser on a substituted source'],
     'technique': 'runtime monitoring: query-time oracle from tokenize/ast positions + brute-force search reference',
